@@ -2,8 +2,10 @@ package main
 
 import (
 	"go/ast"
+	"go/constant"
 	"go/types"
 	"sort"
+	"strconv"
 	"strings"
 
 	"golang.org/x/tools/go/ssa"
@@ -343,8 +345,7 @@ func lenCapped(s ssa.Value, max string) bool {
 		if !isS || sl.High == nil {
 			return false
 		}
-		k, isK := sl.High.(*ssa.Const)
-		return isK && k.Value != nil && k.Value.ExactString() == max
+		return boundedBy(sl.High, max, 0)
 	}
 	for i, e := range phi.Edges {
 		if lenCapped(e, max) {
@@ -365,6 +366,40 @@ func lenCapped(s ssa.Value, max string) bool {
 			}
 		}
 		if !have["call:builtin:len <= "+max] {
+			return false
+		}
+	}
+	return true
+}
+
+// boundedBy: the integer v is at most max (a decimal constant) wherever it is
+// used: it is that constant or a smaller one, or a φ each of whose inputs is
+// bounded or arrives over an edge on which `input <= max` is known
+// (`n := len(s); if n > Max { n = Max }`).
+func boundedBy(v ssa.Value, max string, depth int) bool {
+	if depth > 4 {
+		return false
+	}
+	v = canon(v)
+	if k, ok := v.(*ssa.Const); ok && k.Value != nil {
+		m, err := strconv.ParseInt(max, 10, 64)
+		return err == nil && k.Value.Kind() == constant.Int && k.Int64() <= m
+	}
+	phi, ok := v.(*ssa.Phi)
+	if !ok {
+		return false
+	}
+	for i, e := range phi.Edges {
+		if boundedBy(e, max, depth+1) {
+			continue
+		}
+		p := phi.Block().Preds[i]
+		if len(p.Instrs) == 0 {
+			return false
+		}
+		have := originFacts(valueOrigin{val: e, at: p.Instrs[len(p.Instrs)-1], to: phi.Block()})
+		t := term(e)
+		if !have[t+" <= "+max] {
 			return false
 		}
 	}
